@@ -1,5 +1,9 @@
 """C03 - a datetime window selects exactly the messages inside it.
 
+(Every kind of source: text below; fixed-struct records through checks.c08's record
+model with a window on every case; evtx and journal through the independent dumps
+of checks.c10 / checks.c09 with bounds exactly on, and 1 us around, record times.)
+
 Oracle: window model A <= t <= B over generator-known instants (unique tokens), for
 text sources (plain: binary search; compressed/tar: linear scan) at several block
 sizes, with bounds before / between / exactly on / 1 us around / after message
@@ -121,6 +125,7 @@ def run(ctx):
             wins.append(((a, ka, bound_str(a, rng) if a is not None else None), (b, kb, bound_str(b, rng) if b is not None else None)))
         jobs.append((s4, srcs, tz_min, B, wins))
         meta.append((d, srcs, B))
+    other_kinds(ctx, s4)
     for (d, srcs, B), results in zip(meta, core.pmap(job, jobs)):
         full = cases.merge_model(srcs, srcs)
         for (a, ka), (b, kb), r in results:
@@ -167,3 +172,65 @@ def run(ctx):
                 continue
             if len(ctx.samples) < 4 and sel == "some" and ("on" in (ka, kb)):
                 ctx.sample({"argv": r.argv[1:], "A_class": ka, "B_class": kb, "selected": len(merged), "of": len(full)})
+
+
+# --------------------------------------------------------------------------
+# the other kinds of source
+
+def other_kinds(ctx, s4):
+    import re
+    from checks import c08, c09, c10
+    from vlib import fixtures
+    rng = ctx.rng
+    # fixed-struct records: every case carries a window
+    c08.run_cases(ctx, s4, ctx.pick(1500, 15000), 1.0, "C03|fixedstruct")
+    # evtx: independent dump
+    h = core.build_harness()
+    jobs, meta = [], []
+    for p in fixtures.evtxs():
+        recs, _ = c10.dump(h, p)
+        inst = sorted({t for _, t in recs})
+        for _ in range(ctx.pick(20, 200) if inst else 0):
+            x, y = sorted([rng.choice(inst), rng.choice(inst)])
+            k = rng.choice(["on", "a=b", "+1us", "-1us"])
+            if k == "a=b":
+                y = x
+            elif k == "+1us":
+                x, y = x + 1000, y + 1000
+            elif k == "-1us":
+                x, y = x - 1000, y - 1000
+            jobs.append((s4, p, ["-a", c10.bound_str(x), "-b", c10.bound_str(y)], ctx.work, 65536))
+            meta.append(("evtx", recs, x, y, k))
+    for (kind, recs, a, b, k), r in zip(meta, core.pmap(c10.job, jobs)):
+        keyed = sorted(((t, i, rid) for i, (rid, t) in enumerate(recs)), key=lambda z: (z[0], z[1]))
+        want = [rid for t, i, rid in keyed if a <= t <= b]
+        got = [int(z) for z in c10.RID.findall(r.out)]
+        ctx.evaluated(1, ("evtx", k, len(want) > 0))
+        ctx.count("evtx windows")
+        if got != want:
+            ctx.violation("C03|evtx|selection-differs|window-%s" % k, "evtx: %d records printed, %d lie in [%d, %d]" % (len(got), len(want), a, b),
+                          info={"argv": r.argv, "env": r.env})
+    # journal: journalctl export as reference
+    jobs, meta = [], []
+    for p in fixtures.journals():
+        exp = c09.parse_export(c09.journalctl(p, "export"))
+        rts = [int(c09.field(e, b"__REALTIME_TIMESTAMP")) for e in exp]
+        for _ in range(ctx.pick(12, 120)):
+            x, y = sorted([rng.choice(rts), rng.choice(rts)])
+            k = rng.choice(["on", "a=b", "b-only", "a-only"])
+            if k == "a=b":
+                y = x
+            wargs = (["-a", c09.bound_str(x, rng)] if k != "b-only" else []) + (["-b", c09.bound_str(y, rng)] if k != "a-only" else [])
+            jobs.append((s4, p, "export", wargs, 0, ctx.work))
+            meta.append((exp, x if k != "b-only" else None, y if k != "a-only" else None, k))
+    for (exp, a, b, k), r in zip(meta, core.pmap(c09.job, jobs)):
+        sel = [c09.field(e, b"__CURSOR") for e in exp if (a is None or int(c09.field(e, b"__REALTIME_TIMESTAMP")) >= a) and (b is None or int(c09.field(e, b"__REALTIME_TIMESTAMP")) <= b)]
+        got = [c09.field(e, b"__CURSOR") for e in c09.parse_export_s4(r.out)]
+        ctx.evaluated(1, ("journal", k, len(sel) > 0))
+        ctx.count("journal windows")
+        if got != sel:
+            bye = {c09.field(e, b"__CURSOR"): e for e in exp}
+            diff = set(got) ^ set(sel)
+            src_diff = all(c09.field(bye[c], b"_SOURCE_REALTIME_TIMESTAMP") not in (None, c09.field(bye[c], b"__REALTIME_TIMESTAMP")) for c in diff if c in bye)
+            sig = "C03|journal|window-applied-to-source-realtime-timestamp-not-receive-time" if (diff and src_diff) else "C03|journal|selection-differs|window-%s" % k
+            ctx.violation(sig, "journal: %d entries printed, %d lie in the window [%s, %s]" % (len(got), len(sel), a, b), info={"argv": r.argv, "env": r.env})
